@@ -6,6 +6,7 @@ git -C /repo diff --quiet || { echo "/repo has uncommitted changes"; exit 2; }
 RC=0
 for D in seeded/${1:-*}/; do
   N=$(basename $D); P=${N%%-*}
+  if grep -q '"neutralised_by_repo_fix": true' $D/meta.json; then echo "$N skipped (no longer a break after a later fix: commit)"; continue; fi
   if ! git -C /repo apply $D/patch.diff 2>/dev/null; then echo "$N patch does not apply"; RC=1; continue; fi
   OUT=$(./bin/vcheck -p $P -tier quick 2>&1); E=$?
   git -C /repo checkout -- .
